@@ -388,3 +388,79 @@ def who_writes(model: Model, res, cls_name: str, fields: List[str], allowed_modu
                         res.find(rule, f.qualname, f"outside writer of {sub.attr}: {ast.unparse(node)}", f.loc(node),
                                  f"{f.qualname} writes field {sub.attr} of {cls_name} from outside {allowed_modules}")
     res.ob(rule, f"no module outside {allowed_modules} writes {fields}", allowed_modules[0], ok=(n == 0))
+
+
+def cache_escape_rule(model: Model, res, cls_name: str, caches, rule: str = "R-CACHE"):
+    """A memo getter hands out the memo's OWN container (`return self._x_cache.value`).  Whoever receives it may read it;
+    a callee that mutates the parameter it is bound to, or a statement that mutates it in place, changes the memo without
+    going through set()/reset(): the view stays 'filled' and is no longer the recomputation.  Parameter-mutation
+    summaries come from the alias analysis (fixpoint over resolved callees)."""
+    import ast as _ast
+    from ..report import Result
+    from .alias import cell_mutation_rule, MUTATORS0
+    c = model.cls(cls_name)
+    getters = {}
+    for k in model.mro(c):
+        for name, f in k.methods.items():
+            if not f.is_property or name in getters:
+                continue
+            for r in _ast.walk(f.node):
+                if isinstance(r, _ast.Return) and isinstance(r.value, _ast.Attribute) and isinstance(r.value.value, _ast.Attribute) \
+                        and isinstance(r.value.value.value, _ast.Name) and r.value.value.value.id == "self" and r.value.value.attr in caches:
+                    getters[name] = r.value.value.attr
+    mutating, _ = cell_mutation_rule(model, Result(res.prop, "scratch"))
+    by_name = {}
+    for f in model.all_functions():
+        by_name.setdefault(f.name, []).append(f)
+    n = 0
+    bad = []
+    for f in model.all_functions():
+        if not f.module.relpath.startswith("demeter/aave/"):
+            continue
+        me = f.params[0] if f.is_method and f.params else None
+        # locals bound to a handed-out container
+        held = {}
+        for s in _ast.walk(f.node):
+            if isinstance(s, _ast.Assign) and len(s.targets) == 1 and isinstance(s.targets[0], _ast.Name) and isinstance(s.value, _ast.Attribute) \
+                    and isinstance(s.value.value, _ast.Name) and s.value.value.id == me and s.value.attr in getters:
+                held[s.targets[0].id] = s.value.attr
+
+        def view_of(e):
+            if isinstance(e, _ast.Attribute) and isinstance(e.value, _ast.Name) and e.value.id == me and e.attr in getters:
+                return e.attr
+            if isinstance(e, _ast.Name) and e.id in held:
+                return held[e.id]
+            return None
+
+        for s in _ast.walk(f.node):
+            if isinstance(s, _ast.Call):
+                # in-place mutation of the view
+                if isinstance(s.func, _ast.Attribute) and s.func.attr in MUTATORS0 and view_of(s.func.value):
+                    n += 1
+                    bad.append((f, s, view_of(s.func.value), f"`.{s.func.attr}()` on the view"))
+                    continue
+                nm = s.func.attr if isinstance(s.func, _ast.Attribute) else (s.func.id if isinstance(s.func, _ast.Name) else None)
+                for g in by_name.get(nm, [])[:4]:
+                    summ = mutating.get(g.qualname)
+                    params = g.params[1:] if (g.is_method or g.is_classmethod) else list(g.params)
+                    pairs = list(zip(params, s.args)) + [(k.arg, k.value) for k in s.keywords if k.arg]
+                    for p, a in pairs:
+                        v = view_of(a)
+                        if v is None:
+                            continue
+                        n += 1
+                        if summ and p in summ:
+                            bad.append((f, s, v, f"passed as `{p}` to {g.qualname}, which mutates that argument"))
+            tg = s.targets if isinstance(s, (_ast.Assign, _ast.Delete)) else ([s.target] if isinstance(s, _ast.AugAssign) else [])
+            for t in tg:
+                if isinstance(t, _ast.Subscript) and view_of(t.value):
+                    n += 1
+                    bad.append((f, s, view_of(t.value), "item store / delete on the view"))
+    res.ob(rule, f"containers handed out by the memo getters {sorted(getters)} are never mutated by their receivers ({n} hand-over sites)",
+           c.module.relpath, ok=not bad)
+    for f, s, v, how in bad:
+        res.find(rule, f.qualname, f"memo container of {v} mutated outside the cache: {how}", f.loc(s),
+                 f"{f.qualname}: `{_ast.unparse(s)[:90]}` - the dict returned by `{v}` IS the memo ({getters[v]}); it is {how}, so the cached view "
+                 f"changes without a reset and every later read of `{v}` (and of the views derived from it) differs from a recomputation")
+    res.units["memo_getters_handing_out_their_container"] = len(getters)
+    return len(getters), n
